@@ -636,12 +636,14 @@ class Prover:
             expect = ("return", self.call_native(c, copy.deepcopy(args)))
         except Exception as ex:
             expect = ("raise", type(ex))
+        from .frames import lift, agrees
+
         ctx = E.PathCtx([])
         it = E.Interp(ctx, loop_specs={})
         try:
             f = c.func
             params = list(inspect.signature(f).parameters)
-            kw = {p: copy.deepcopy(args[p]) for p in params if p in args}
+            kw = {p: lift(copy.deepcopy(args[p])) for p in params if p in args}
             got = ("return", it.call(f, [], kw) if isinstance(f, type) else it.run_function(f, [], kw))
         except E.PyRaise as pr:
             got = ("raise", pr.exc_cls)
@@ -650,15 +652,17 @@ class Prover:
         except Exception as ex:
             ur.native["crosscheck_mismatch"].append(f"engine crashed on {args!r}: {type(ex).__name__}: {ex}"[:300])
             return
+        if ctx.taken:
+            return  # the run was not fully concrete (e.g. an unstable-sort tie): not comparable
         ur.native["crosscheck"] += 1
         same = False
         if expect[0] == got[0]:
             if expect[0] == "raise":
                 same = issubclass(got[1], expect[1]) or issubclass(expect[1], got[1])
             else:
-                same = _values_agree(expect[1], got[1])
+                same = agrees(expect[1], got[1]) or _values_agree(expect[1], got[1])
         if not same:
-            ur.native["crosscheck_mismatch"].append(f"args={args!r} cpython={expect!r} engine={got!r}"[:400])
+            ur.native["crosscheck_mismatch"].append(f"args={args!r} cpython={expect!r} engine={got!r}"[:700])
 
     # ---- replay files
     def write_replay(self, c, o, args, verdict, model):
